@@ -449,7 +449,13 @@ def run_case(case, ctx):
     if rng.random() < 0.5:
         rho0 = 0.5 * rho0
         rho0[0, 0] = 0.5
-        if case["state"] != "populations":
+        # (a time-dependent tensor fixes the time step; where its Hamiltonian carries no rotating-wave frame - the combined theory returns a
+        #  plain copy - optical coherences would rotate by several radians per step, far outside the range of any short-time expansion:
+        #  such runs start in the excited block only)
+        lab_frame_td = td and not hamR.has_rwa
+        if lab_frame_td:
+            ctx.event("td_cases_without_rwa_started_in_the_excited_block")
+        if case["state"] != "populations" and not lab_frame_td:
             v = 0.2 * (rng.normal(size=dim - 1) + 1j * rng.normal(size=dim - 1)) / math.sqrt(dim)
             rho0[0, 1:] = v
             rho0[1:, 0] = v.conj()
